@@ -82,6 +82,21 @@ Fixpoint wf (v : value) : bool :=
   | _ => true
   end.
 
+(* the part of [wf] the order laws need: numbers are valid, nothing is asked of the maps
+   (so it also holds for insertion-ordered maps) *)
+Fixpoint wfn (v : value) : bool :=
+  let all := fix all (xs : list value) : bool :=
+    match xs with [] => true | x :: r => wfn x && all r end in
+  match v with
+  | VInt w z => int_valid w z
+  | VFloat b => f_valid b
+  | VSeq xs | VTuple xs | VIter _ xs => all xs
+  | VMap kvs =>
+      (fix allp (xs : list (value * value)) : bool :=
+         match xs with [] => true | (k, x) :: r => wfn k && wfn x && allp r end) kvs
+  | _ => true
+  end.
+
 (* no NaN anywhere inside ("NaN aside") *)
 Fixpoint nan_free (v : value) : bool :=
   let all := fix all (xs : list value) : bool :=
@@ -138,6 +153,39 @@ Fixpoint cross_kind (a b : value) {struct a} : bool :=
   end.
 
 Definition Known (a b : value) : Prop := cross_kind a b = true.
+
+(* With insertion-ordered maps (feature `preserve_order`) one more class: two maps whose
+   keys do not line up in iteration order, at the top or at corresponding positions.  Such
+   maps can be == (same content, inserted in another order) while cmp and the hash, which
+   walk the pairs in iteration order, tell them apart. *)
+Fixpoint reordered (a b : value) {struct a} : bool :=
+  let any := fix any (xs ys : list value) {struct xs} : bool :=
+    match xs, ys with
+    | x :: xs', y :: ys' => reordered x y || any xs' ys'
+    | _, _ => false
+    end in
+  match a with
+  | VSeq xs | VTuple xs | VIter _ xs =>
+      match b with
+      | VSeq ys | VTuple ys | VIter _ ys => any xs ys
+      | _ => false
+      end
+  | VMap kvs =>
+      match b with
+      | VMap kvs2 =>
+          (fix anyp (xs ys : list (value * value)) {struct xs} : bool :=
+             match xs, ys with
+             | (k1, v1) :: xs', (k2, v2) :: ys' =>
+                 match vcmp k1 k2 with Eq => false | _ => true end || reordered v1 v2 || anyp xs' ys'
+             | _, _ => false
+             end) kvs kvs2
+      | _ => false
+      end
+  | _ => false
+  end.
+
+Definition Known_o (o : map_order) (a b : value) : Prop :=
+  cross_kind a b = true \/ (o = Insertion /\ reordered a b = true).
 
 (* ------------------------------------------------------------------------------------ *)
 (* filter laws                                                                          *)
@@ -222,3 +270,22 @@ Definition SliceLaw {A} (count : Z) (fill : option A) (l : list A) (runs : list 
 (* "none of them panics": the outcome is a value or an error of the template engine *)
 Definition safe {A} (o : outcome A) : Prop :=
   match o with Panic | OutOfGas => False | _ => True end.
+
+(* ------------------------------------------------------------------------------------ *)
+(* sum / join vocabulary                                                                *)
+(* ------------------------------------------------------------------------------------ *)
+Definition int_of (v : value) : Z := match v with VInt _ z => z | _ => 0 end.
+Definition zsum (items : list value) : Z := fold_right (fun v acc => int_of v + acc) 0 items.
+Definition is_i64_int (v : value) : Prop := match v with VInt _ z => i64_min <= z <= i64_max | _ => False end.
+
+Fixpoint intercalate (d : list Z) (parts : list (list Z)) : list Z :=
+  match parts with
+  | [] => []
+  | [p] => p
+  | p :: r => p ++ d ++ intercalate d r
+  end.
+
+(* the renderings of the items (strings as they are, integers in decimal); None when some
+   item is of another kind *)
+Definition rendered (items : list value) : option (list (list Z)) :=
+  fold_right (fun x acc => match render x, acc with Some s, Some r => Some (s :: r) | _, _ => None end) (Some []) items.
